@@ -7,6 +7,7 @@ import Driver.Bessel
 import Driver.Quad
 import Driver.Radial
 import Driver.Angular
+import Driver.Pair
 /-! Model driver.  Single-line requests: first token selects the layer.
 Multi-line requests: `begin <layer>` … `end`. -/
 
@@ -33,33 +34,42 @@ inductive Mode
   | api (q : Driver.Api.Req)
   | deriv (q : Driver.Deriv.Req)
   | quad (q : Driver.Quad.Req)
+  | pair (q : Driver.Pair.Req)
 
-partial def loop (h : IO.FS.Stream) (out : IO.FS.Stream) (m : Mode) : IO Unit := do
+partial def loop (h : IO.FS.Stream) (out : IO.FS.Stream) (m : Mode) (cache : Driver.Pair.Cache := {}) : IO Unit := do
   let line ← h.getLine
   if line.isEmpty then return ()
   let toks := tokens line
   match m, toks with
-  | .idle, ["begin", "api"] => loop h out (.api {})
-  | .idle, ["begin", "deriv"] => loop h out (.deriv {})
-  | .idle, ["begin", "quad"] => loop h out (.quad {})
+  | .idle, ["begin", "api"] => loop h out (.api {}) cache
+  | .idle, ["begin", "deriv"] => loop h out (.deriv {}) cache
+  | .idle, ["begin", "quad"] => loop h out (.quad {}) cache
+  | .idle, ["begin", "pair"] => loop h out (.pair {}) cache
   | .idle, _ =>
     for l in dispatch toks do out.putStrLn l
-    loop h out .idle
+    loop h out .idle cache
   | .api q, ["end"] =>
     for l in Driver.Api.finish q do out.putStrLn l
     out.putStrLn "end"
-    loop h out .idle
-  | .api q, _ => loop h out (.api (Driver.Api.feed q toks))
+    loop h out .idle cache
+  | .api q, _ => loop h out (.api (Driver.Api.feed q toks)) cache
   | .deriv q, ["end"] =>
     for l in Driver.Deriv.finish q do out.putStrLn l
     out.putStrLn "end"
-    loop h out .idle
-  | .deriv q, _ => loop h out (.deriv (Driver.Deriv.feed q toks))
+    loop h out .idle cache
+  | .deriv q, _ => loop h out (.deriv (Driver.Deriv.feed q toks)) cache
   | .quad q, ["end"] =>
     for l in Driver.Quad.finish q do out.putStrLn l
     out.putStrLn "end"
-    loop h out .idle
-  | .quad q, _ => loop h out (.quad (Driver.Quad.feed q toks))
+    loop h out .idle cache
+  | .quad q, _ => loop h out (.quad (Driver.Quad.feed q toks)) cache
+  | .pair q, ["end"] =>
+    for l in Driver.Pair.finish q do out.putStrLn l
+    out.putStrLn "end"
+    loop h out .idle cache
+  | .pair q, _ =>
+    let (c', q') := Driver.Pair.feed cache q toks
+    loop h out (.pair q') c'
 
 def main : IO Unit := do
   let out ← IO.getStdout
